@@ -144,12 +144,34 @@ func glComposite(f func(float64) float64, a, b float64, n int) float64 {
 	return s
 }
 
+// splitPoint is the bisection point of [a0,a1] used by the adaptive rules: the arithmetic
+// midpoint, or the geometric one (relative to a finite end lo/hi of the support, or to 0)
+// when the panel spans more than two octaves of the distance to that point.
+func splitPoint(a0, a1, lo, hi float64) float64 {
+	switch {
+	case !math.IsInf(lo, 0) && a0 > lo && a1-lo > 4*(a0-lo):
+		return lo + math.Sqrt(a0-lo)*math.Sqrt(a1-lo)
+	case !math.IsInf(hi, 0) && a1 < hi && hi-a0 > 4*(hi-a1):
+		return hi - math.Sqrt(hi-a0)*math.Sqrt(hi-a1)
+	case a0 > 0 && a1 > 4*a0: // decades of a heavy tail
+		return math.Sqrt(a0) * math.Sqrt(a1)
+	case a1 < 0 && a0 < 4*a1:
+		return -math.Sqrt(-a0) * math.Sqrt(-a1)
+	}
+	return a0 + (a1-a0)/2
+}
+
 // glAdaptive integrates f over [a,b] by recursive bisection of 20-point panels
 // until the two halves reproduce the parent to tol (absolute) or 1e-13 relative.
-func glAdaptive(f func(float64) float64, a, b, tol float64) float64 {
+// edges, if given, are the ends (lo, hi) of the support, towards which the bisection is geometric.
+func glAdaptive(f func(float64) float64, a, b, tol float64, edges ...float64) float64 {
+	lo, hi := math.Inf(-1), math.Inf(1)
+	if len(edges) == 2 {
+		lo, hi = edges[0], edges[1]
+	}
 	var rec func(a, b, whole float64, depth int) float64
 	rec = func(a, b, whole float64, depth int) float64 {
-		m := a + (b-a)/2
+		m := splitPoint(a, b, lo, hi)
 		l, r := glPanel(f, a, m), glPanel(f, m, b)
 		if math.Abs(l+r-whole) <= tol+1e-13*math.Abs(l+r) || depth >= 60 || !(m > a && m < b) {
 			return l + r
@@ -239,14 +261,7 @@ func integrateLaw(logf func(float64) float64, lo, hi float64, brk []float64, c f
 	// density with an algebraic singularity span many decades).
 	var adapt func(a0, a1 float64, whole [nAcc]float64, depth int)
 	adapt = func(a0, a1 float64, whole [nAcc]float64, depth int) {
-		m := a0 + (a1-a0)/2
-		// split geometrically (relative to a finite end of the support) when the
-		// panel spans more than two octaves of the distance to that end
-		if !math.IsInf(lo, 0) && a1-lo > 4*(a0-lo) {
-			m = lo + math.Sqrt((a0-lo)*(a1-lo))
-		} else if !math.IsInf(hi, 0) && hi-a0 > 4*(hi-a1) {
-			m = hi - math.Sqrt((hi-a0)*(hi-a1))
-		}
+		m := splitPoint(a0, a1, lo, hi)
 		l, r := panel(a0, m), panel(m, a1)
 		okAll := true
 		for k := range whole {
